@@ -22,7 +22,7 @@ RULE = ("bodies of boundary lengths (0, 1, 243..245, 487..489, k*244+-1, random 
         "and of a block whose checksum is 0x0081 (enumerated); 1-3 bytes altered at once with the checksum forced to 0000 / FFFF / "
         "swapped / one byte zero / sum of data only (judged by the reference parser); system bytes reused after a completed message; "
         "two protocol objects fed multi-block messages with the same system bytes (interleaved, or abandoned and repeated); "
-        "distinct by (oracle, header fields, body hash | corruption position and mask); all are non-trivial; plus: rounds with 33-70 multi-block messages open at the same moment")
+        "distinct by (oracle, header fields, body hash | corruption position and mask); all are non-trivial; plus: rounds with 33-70 multi-block messages open at the same moment; a slow sender whose gaps between blocks stay below a short T4 while the whole transfer of 3-6 blocks takes longer than T4")
 ASSUMPTIONS = ["lib/wire.py implements the SEMI E4 block layout and checksum", "corruption of the length byte is outside the "
                "statement and only required not to yield an accepted block", "reassembly is fed in order within a message"]
 LEVEL_TEXT = ("Fault enumeration: every single-byte corruption (position x mask set) of four block sizes is applied to the "
@@ -33,7 +33,7 @@ TECHNIQUE = "exhaustive single-byte fault injection + runtime differential oracl
 SHARDS = {"quick": 8, "thorough": 16}
 TIMEOUT = {"quick": 300, "thorough": 3000}
 FLOORS = {"oracle.two_endpoints": 10, "oracle.corruption_multi": 1000, "reassembly.system_bytes_reused_after_completion": 10, "oracle.split": 300, "oracle.block_codec": 1000, "oracle.corruption": 2000, "oracle.reassembly": 20,
-          "reassembly.interleaved_messages": 20}
+          "reassembly.interleaved_messages": 20, "reassembly.transfers_longer_than_T4_with_gaps_shorter_than_T4": 16}
 EXHAUSTIVE_ALL = False
 
 
@@ -290,6 +290,53 @@ def _reassembly(ctx, S, nrounds):
     rig.close()
 
 
+def _slow_sender(ctx, rounds):
+    """A sender that takes its time: every gap between two blocks is shorter than the inter-block time-out T4, but the whole
+    transfer takes longer than T4 (a short, non-default T4 keeps the run short). The message must arrive intact."""
+    import time
+
+    from lib.secsirig import SecsIRig
+    import secsgem.common
+
+    rng = ctx.rng
+    for r in range(rounds):
+        t4 = 0.3
+        rig = SecsIRig(device_type=secsgem.common.DeviceType.EQUIPMENT, t4=t4)
+        try:
+            nblocks = rng.randint(3, 6)
+            body = rng.randbytes(244 * (nblocks - 1) + rng.randint(1, 244))
+            h = dict(device_id=rng.randint(0, 0x7FFF), rbit=False, stream=rng.choice([1, 2, 6, 7]), wbit=False, function=rng.choice([1, 3, 5, 11]),
+                     system=rng.getrandbits(32))
+            blocks = [wire.secs1_block(wire.secs1_header(**rf), d) for rf, d in
+                      wire.secs1_split(h["device_id"], h["rbit"], h["stream"], h["wbit"], h["function"], h["system"], body)]
+            gap = 0.6 * t4
+            t0 = time.monotonic()
+            ok = True
+            for bi, raw in enumerate(blocks):
+                if bi:
+                    time.sleep(gap)
+                trace, answer = rig.send_block_to_sut(raw, None)
+                if answer != wire.ACK:
+                    ctx.violation("valid-block-not-acknowledged", {"trace": trace, "block_index": bi, "sender": "slow: gaps of 0.6 x T4"})
+                    ok = False
+                    break
+            took = time.monotonic() - t0
+            if not ok:
+                continue
+            ctx.count("oracle.slow_sender_transfers")
+            if took > t4:
+                ctx.count("reassembly.transfers_longer_than_T4_with_gaps_shorter_than_T4")
+            ctx.case(("slow", nblocks, len(body)), nontrivial=True)
+            rig.wait(lambda: len(rig.delivered) >= 1, timeout=3.0)
+            got = list(rig.delivered)
+            if len(got) != 1 or got[0]["body"] != body or got[0]["system"] != h["system"]:
+                if got or rig.confirm_absent(lambda: len(rig.delivered) >= 1):
+                    ctx.violation("reassembly-differs", {"sender": f"slow: {nblocks} blocks, gaps of {gap:.2f} s, T4 = {t4} s, transfer took {took:.2f} s",
+                                                         "delivered": [(hex(g["system"]), len(g["body"])) for g in got][:4], "body_len_want": len(body)})
+        finally:
+            rig.close()
+
+
 def _two_endpoints(ctx, rounds):
     """Two protocol objects in one process (two lines, or a fresh object after a line was given up in the middle of a message)
     receive multi-block messages that carry the same system bytes: each must reassemble exactly its own message."""
@@ -383,3 +430,4 @@ def run(ctx):
     _corruption(ctx, S)
     _reassembly(ctx, S, 12 if ctx.quick else 2500)
     _two_endpoints(ctx, 12 if ctx.quick else 400)
+    _slow_sender(ctx, 3 if ctx.quick else 40)
